@@ -368,6 +368,12 @@ send_packet = _mk_send_packet(
             ('kex-messages-never-queued', kex_progress)])
 
 
+# 400 paths: when a change refutes many of them, replay a failing input for the first few and report the rest without
+# repeating the counter-model search (cost on a broken tree only; every refuted obligation is still a VIOLATION)
+send_packet.confirm_limit = 2
+send_packet.confirm_attempts = 24
+
+
 def resubmit_under_contract(cx):
     """self.send_packet(pkttype, *args) in the flush loop: the VERIFIED contract of send_packet, plus ghost
     bookkeeping only - ghost_resubmitted logs every call in order; ghost_requeued logs what the callee appended to
